@@ -265,6 +265,10 @@ func (x *Exec) externCall(f *frame, in ssa.Instruction, callee *ssa.Function, c 
 		x.assumed["extern status.Code: OK for nil, the carried code for status errors, Unknown otherwise"] = true
 		c := x.define(x.fresh("code"), x.X.sortOf(callee.Signature.Results().At(0).Type()), ite(eq(args[0].T, "0"), "0", ite(x.isStatus(args[0].T), x.statusCode(args[0].T), "2")))
 		return Val{T: c}, true
+	case "sort.Search":
+		if v, ok := x.sortSearch(f, in, args); ok {
+			return v, true
+		}
 	case "math/rand/v2.Float64", "math/rand.Float64":
 		return x.randFloat64(st), true
 	case "time.Now":
@@ -331,7 +335,7 @@ func (x *Exec) externInvoke(f *frame, in ssa.Instruction, c *ssa.CallCommon, arg
 }
 
 func (x *Exec) externFuncValue(f *frame, in ssa.Instruction, c *ssa.CallCommon, args []Val) (Val, bool) {
-	return Val{}, false
+	return x.funcVarCall(f, in, c, args)
 }
 
 // ---------------------------------------------------------------------------
